@@ -5,7 +5,7 @@ import (
 	"go/token"
 )
 
-// Map iterators. go-ipld-prime's iteration idiom
+// Map (and list) iterators. go-ipld-prime's iteration idiom
 //
 //	it := E.MapIterator()
 //	for !it.Done() {
@@ -24,6 +24,7 @@ import (
 //		REST…
 //	}
 //
+// (a `ListIterator` likewise, over `listEntries__(E)`, the range variable being the value; its index must be `_`).
 // (`Done` is false exactly while an entry is left, `Next` hands out that entry and does not fail on a well-formed node: the
 // error branch is dropped). `it` must not be mentioned anywhere else; any other use of an iterator leaves the function MISSING.
 func rewriteMapIterators(body *ast.BlockStmt) *ast.BlockStmt {
@@ -46,7 +47,8 @@ func rewriteMapIterators(body *ast.BlockStmt) *ast.BlockStmt {
 			as, ok := s.(*ast.AssignStmt)
 			if ok && as.Tok == token.DEFINE && len(as.Lhs) == 1 && len(as.Rhs) == 1 {
 				if ce, ok := as.Rhs[0].(*ast.CallExpr); ok && len(ce.Args) == 0 {
-					if sel, ok := ce.Fun.(*ast.SelectorExpr); ok && sel.Sel.Name == "MapIterator" {
+					if sel, ok := ce.Fun.(*ast.SelectorExpr); ok && (sel.Sel.Name == "MapIterator" || sel.Sel.Name == "ListIterator") {
+						isList := sel.Sel.Name == "ListIterator"
 						it := as.Lhs[0].(*ast.Ident).Name
 						// the loop that consumes it: the next `for !it.Done()` at this level; statements in between must not mention it
 						j := i + 1
@@ -81,10 +83,20 @@ func rewriteMapIterators(body *ast.BlockStmt) *ast.BlockStmt {
 											if !ok || mentions(is.Cond, it) {
 												fail(na.Pos(), "it.Next() without an error check")
 											}
-											for idx, fn := range []string{"pairFst__", "pairSnd__"} {
-												if id, ok := na.Lhs[idx].(*ast.Ident); ok && id.Name != "_" {
-													nb = append(nb, &ast.AssignStmt{Lhs: []ast.Expr{id}, Tok: token.DEFINE,
-														Rhs: []ast.Expr{&ast.CallExpr{Fun: ast.NewIdent(fn), Args: []ast.Expr{kv}}}})
+											if isList {
+												// a list iterator hands out (index, value): the range variable IS the value; the index is not modelled
+												if id, ok := na.Lhs[0].(*ast.Ident); !ok || id.Name != "_" {
+													fail(na.Pos(), "the index of a list iterator is used")
+												}
+												if id, ok := na.Lhs[1].(*ast.Ident); ok && id.Name != "_" {
+													nb = append(nb, &ast.AssignStmt{Lhs: []ast.Expr{id}, Tok: token.DEFINE, Rhs: []ast.Expr{kv}})
+												}
+											} else {
+												for idx, fn := range []string{"pairFst__", "pairSnd__"} {
+													if id, ok := na.Lhs[idx].(*ast.Ident); ok && id.Name != "_" {
+														nb = append(nb, &ast.AssignStmt{Lhs: []ast.Expr{id}, Tok: token.DEFINE,
+															Rhs: []ast.Expr{&ast.CallExpr{Fun: ast.NewIdent(fn), Args: []ast.Expr{kv}}}})
+													}
 												}
 											}
 											replaced = true
@@ -105,12 +117,35 @@ func rewriteMapIterators(body *ast.BlockStmt) *ast.BlockStmt {
 						for _, between := range list[i+1 : j] {
 							out = append(out, between)
 						}
+						entries := "mapEntries__"
+						if isList {
+							entries = "listEntries__"
+						}
 						out = append(out, &ast.RangeStmt{Key: ast.NewIdent("_"), Value: kv, Tok: token.DEFINE,
-							X:    &ast.CallExpr{Fun: ast.NewIdent("mapEntries__"), Args: []ast.Expr{sel.X}},
+							X:    &ast.CallExpr{Fun: ast.NewIdent(entries), Args: []ast.Expr{sel.X}},
 							Body: &ast.BlockStmt{List: walk(nb)}, For: fs.For})
 						i = j
 						continue
 					}
+				}
+			}
+			// iterators inside the arms of a switch or an if
+			switch x := s.(type) {
+			case *ast.SwitchStmt:
+				cp := *x
+				nb := &ast.BlockStmt{Lbrace: x.Body.Lbrace, Rbrace: x.Body.Rbrace}
+				for _, c := range x.Body.List {
+					cc := *(c.(*ast.CaseClause))
+					cc.Body = walk(cc.Body)
+					nb.List = append(nb.List, &cc)
+				}
+				cp.Body = nb
+				s = &cp
+			case *ast.IfStmt:
+				if x.Else == nil {
+					cp := *x
+					cp.Body = &ast.BlockStmt{Lbrace: x.Body.Lbrace, Rbrace: x.Body.Rbrace, List: walk(x.Body.List)}
+					s = &cp
 				}
 			}
 			out = append(out, s)
